@@ -14,7 +14,9 @@ From CG Require Import Proofs.GlobFacts Proofs.SubwordFacts Proofs.C12Proofs Pro
     transition (to [to]) and [to] is an accepting state of the within-word automaton ([acc]; /repo HEAD checks it since
     df274e8), the repaired matchers consume exactly [v] and end matched in [to] -- whatever longer or shorter literals
     exist, enabled in [s] or not.  The literal array is in decreasing length (dfa.rs).
-    [strdom]: no further condition for [Repaired] (operands are quoted); glob-free text for [Fixed]. *)
+    [strdom]: no further condition for [Repaired] (operands are quoted); glob-free text for [Fixed].
+    [star_first var false T s = false]: the state does not also expect an undefined nonterminal -- a state that does
+    accepts whatever is left without looking at the literals ([Repaired], the greedy-shadow fix of C01). *)
 Theorem C12_values_recognised :
   forall var fuel tabs e T acc word s st ci v to log,
     var <> Pinned -> strdom var (lits_of T) word -> sorted_desc (lits_of T) ->
@@ -22,6 +24,7 @@ Theorem C12_values_recognised :
     sdrop ci word = v -> (ci < String.length word)%nat ->
     first_enabled (lits_of T) st v = Some to ->
     quirky var || memN to acc = true ->
+    star_first var false T s = false ->
     sw_loop (S (S fuel)) var false tabs e T acc word s ci log = Ok (true, to, String.length word, log).
 Proof. exact fixed_value_recognised. Qed.
 Check C12_values_recognised :
@@ -31,6 +34,7 @@ Check C12_values_recognised :
     sdrop ci word = v -> (ci < String.length word)%nat ->
     first_enabled (lits_of T) st v = Some to ->
     quirky var || memN to acc = true ->
+    star_first var false T s = false ->
     sw_loop (S (S fuel)) var false tabs e T acc word s ci log = Ok (true, to, String.length word, log).
 Print Assumptions C12_values_recognised.
 
